@@ -265,7 +265,16 @@ class Zone(dns.zone.Zone):  # lgtm[py/missing-equals]
 
     def _commit_version_unlocked(self, txn, version, origin):
         self._versions.append(version)
-        self._prune_versions_unlocked()
+        try:
+            self._prune_versions_unlocked()
+        except BaseException:
+            # A pruning policy callback failed.  The commit fails as a whole: do
+            # not publish the version, and end the write so that waiting writers
+            # are admitted.
+            self._versions.pop()
+            if txn is not None:
+                self._end_write_unlocked(txn)
+            raise
         self.nodes = version.nodes
         if self.origin is None:
             self.origin = origin
